@@ -242,7 +242,19 @@ func (l *Line) Expand(serial uint32) []RR {
 	case '\'':
 		return []RR{{Owner: owner, Wild: l.Wild, Loc: l.Loc, Type: 16, TTL: pick(l.TTL, ttlLong), Text: append([]byte(nil), l.Text...)}}
 	case ':':
-		return []RR{{Owner: owner, Loc: l.Loc, Type: l.RType, TTL: pick(l.TTL, ttlLong), RData: append([]byte(nil), l.Text...)}}
+		r := RR{Owner: owner, Loc: l.Loc, Type: l.RType, TTL: pick(l.TTL, ttlLong), RData: append([]byte(nil), l.Text...)}
+		if l.RType == 16 {
+			// TXT is compared by its concatenated text
+			rd := l.Text
+			for len(rd) > 0 && 1+int(rd[0]) <= len(rd) {
+				r.Text = append(r.Text, rd[1:1+int(rd[0])]...)
+				rd = rd[1+int(rd[0]):]
+			}
+			if r.Text == nil {
+				r.Text = []byte{}
+			}
+		}
+		return []RR{r}
 	case 'B', 'H':
 		typ := uint16(64)
 		if l.K == 'H' {
